@@ -243,6 +243,45 @@ def check_class(case, ctx, rng_key):
                 hit("attribute_order_only_differences")
             viol.append({"key": key, "what": "%s shape %d: %r vs %r" % (case["id"], shape, s1[:400], s2[:400])})
             continue
+        # the other serialisers, as history on the same instance: none of them may change the instance, each one's text must parse back to
+        # the same object, and the plain serialisation afterwards must still do so
+        if shape % 4 in (0, 2, 3):
+            import xml.etree.ElementTree as _ET
+            alts = [("to_string(nspair)", lambda o: o.to_string({"vx": "urn:verif:foreign"})),
+                    ("to_string_force_namespace", lambda o: o.to_string_force_namespace(
+                        {"vf": "urn:verif:foreign", "vg": "urn:verif:foreign3", "vi": "http://www.w3.org/2001/XMLSchema-instance", "own": cls.c_namespace})),
+                    ("str()", lambda o: str(o)),
+                    ("become_child_element_of", lambda o: _ET.tostring(_become(o), encoding="UTF-8"))]
+            rng.shuffle(alts)
+            for aname, afn in alts:
+                try:
+                    txt = afn(x)
+                except Exception as exc:
+                    viol.append({"key": "C12/serialiser-raised:" + aname, "what": "%s shape %d: %s raised %r" % (case["id"], shape, aname, exc)})
+                    break
+                hit("alternative_serialisations")
+                d_after = schema.describe(x)
+                diff = schema.first_difference(dx, d_after)
+                if diff:
+                    viol.append({"key": "C12/serialising-changed-the-instance", "what": "%s shape %d: after %s the instance differs: %s" % (case["id"], shape, aname, diff[:500])})
+                    break
+                try:
+                    y2 = saml2_tophat.create_class_from_xml_string(cls, txt)
+                    diff = "parsed to %r" % type(y2) if (y2 is None or type(y2) is not cls) else schema.first_difference(dx, schema.describe(y2))
+                except Exception as exc:
+                    diff = "parse raised %r" % (exc,)
+                if diff:
+                    viol.append({"key": "C12/text-of-alternative-serialiser-does-not-parse-back", "what": "%s shape %d: %s: %s" % (case["id"], shape, aname, diff[:500]),
+                                 "detail": {"xml": (txt if isinstance(txt, str) else txt.decode("utf-8", "replace"))[:3000]}})
+                    break
+            else:
+                try:
+                    y3 = saml2_tophat.create_class_from_xml_string(cls, x.to_string())
+                    diff = "parsed to %r" % type(y3) if (y3 is None or type(y3) is not cls) else schema.first_difference(dx, schema.describe(y3))
+                except Exception as exc:
+                    diff = "raised %r" % (exc,)
+                if diff:
+                    viol.append({"key": "C12/roundtrip-fails-after-other-serialisers-ran", "what": "%s shape %d: %s" % (case["id"], shape, diff[:500])})
         # module level *_from_string
         by_tag = getattr(mod, "ELEMENT_BY_TAG", {})
         ffs = getattr(mod, "ELEMENT_FROM_STRING", {})
@@ -284,6 +323,13 @@ def check_class(case, ctx, rng_key):
     return {"outcome": "violations" if viol else "roundtrip-ok", "nontrivial": bool(sigs), "violations": list(uniq.values()),
             "counters": counters, "sigs": sigs, "evals": max(n, 1),
             "obs": {"attributes": len(cls.c_attributes), "children": len(cls.c_children)}}
+
+
+def _become(o):
+    import xml.etree.ElementTree as _ET
+    holder = _ET.Element("holder")
+    o.become_child_element_of(holder)
+    return holder[0]
 
 
 def _canon(xml_bytes):
